@@ -3,7 +3,7 @@ import z3
 
 from vfkit import core, ext, frame, model, sym
 from vfkit.check import Plan
-from vfkit.sym import EngineUnsupported, S, SymBool, SymStr, ctx
+from vfkit.sym import EngineUnsupported, PathStop, S, SymBool, SymInt, SymStr, ctx
 
 from . import c01, c08, treecases
 
@@ -48,6 +48,15 @@ def class_of_child(ch):
     return ch
 
 
+def in_field_position(parents):
+    """spec (from the statement: a field group is in place when it is what a field name applies to; the parser builds
+    `field:(a b)^2` as SearchField > Boost > FieldGroup, so boosts may sit in between): the nearest ancestor that is not a
+    boost is a field"""
+    import itertools
+    rest = list(itertools.dropwhile(lambda q: isinstance(q, T.Boost), reversed(list(parents))))
+    return bool(rest) and isinstance(rest[0], T.SearchField)
+
+
 def wf_local(x, parents, zeal):
     """spec (from the statement): the node itself is a well-formed construct in this position"""
     n = type(x).__name__
@@ -67,7 +76,7 @@ def wf_local(x, parents, zeal):
     if n == "Group":
         conj.append(z3.BoolVal(not (parents and isinstance(parents[-1], T.SearchField))))
     if n == "FieldGroup":
-        conj.append(z3.BoolVal(bool(parents) and isinstance(parents[-1], T.SearchField)))
+        conj.append(z3.BoolVal(in_field_position(parents)))
     if n in ("Not", "Prohibit") and zeal:
         conj.append(z3.BoolVal(not (parents and isinstance(parents[-1], T.OrOperation))))
     return z3.And(conj) if conj else z3.BoolVal(True)
@@ -90,11 +99,185 @@ def ill_formed(x, parents):
     if n == "Group":
         dis.append(z3.BoolVal(bool(parents) and isinstance(parents[-1], T.SearchField)))
     if n == "FieldGroup":
-        dis.append(z3.BoolVal(not (parents and isinstance(parents[-1], T.SearchField))))
+        dis.append(z3.BoolVal(not in_field_position(parents)))
     return z3.Or(dis) if dis else z3.BoolVal(False)
 
 
-QUICK_PARENTS = ("SearchField", "OrOperation", "Group", "AndOperation")
+FG_WHILE_KEY = "luqum.check.LuceneCheck.check_field_group#while0"
+
+
+class AbsParents:
+    """the ancestors of a node as an abstract list: symbolic length n >= 0, the class of the i-th ancestor is that of
+    fp_at(i) (uninterpreted).  Read-only: any other use than len / index / `+ [item]` is loud."""
+    __vf_symbolic__ = True
+
+    def __init__(self, cx):
+        self.n = SymInt(name="n_parents")
+        cx.assume(self.n.t >= 0)
+        self.fp_at = z3.Function(sym.fresh("parent_fp"), z3.IntSort(), model.FP)
+        self.nodes = {}
+
+    def __vf_len__(self):
+        return self.n
+
+    def __len__(self):
+        raise EngineUnsupported("len() of abstract parents outside the len hook")
+
+    def __bool__(self):
+        return sym.ctx().decide(self.n.t > 0)
+
+    def __iter__(self):
+        raise EngineUnsupported("iteration over abstract parents")
+
+    def __vf_getitem__(self, k):
+        cx = sym.ctx()
+        if isinstance(k, SymInt):
+            idx = k.t
+        elif isinstance(k, int) and not isinstance(k, bool):
+            idx = z3.IntVal(k)
+        else:
+            raise EngineUnsupported("abstract parents[%r]" % type(k).__name__)
+        if not cx.decide(idx >= 0):
+            idx = self.n.t + idx
+        if not cx.decide(z3.And(idx >= 0, idx < self.n.t)):
+            raise IndexError("list index out of range")
+        idx = z3.simplify(idx)
+        key = idx.sexpr()
+        node = self.nodes.get(key)
+        if node is None:
+            node = model.AbsNode("ancestor", layout="none")
+            node.__dict__["fp"] = self.fp_at(idx)
+            self.nodes[key] = node
+        return node
+
+    __getitem__ = __vf_getitem__
+
+    def __add__(self, other):
+        if not isinstance(other, list):
+            raise EngineUnsupported("abstract parents + %s" % type(other).__name__)
+        return ExtParents(self, list(other))
+
+    def is_boost(self, j):
+        return model.is_class(self.fp_at(j), ["Boost"])
+
+    def in_field_position(self):
+        """the declarative spec over the abstract chain: some ancestor k is a field and every ancestor nearer than k is a boost"""
+        k, j = z3.Int(sym.fresh("k")), z3.Int(sym.fresh("j"))
+        return z3.Exists([k], z3.And(k >= 0, k < self.n.t, model.is_class(self.fp_at(k), ["SearchField"]),
+                                     z3.ForAll([j], z3.Implies(z3.And(k < j, j < self.n.t), self.is_boost(j)))))
+
+
+class ExtParents:
+    def __init__(self, base, extra):
+        self.base, self.extra = base, extra
+
+
+class FieldGroupCut:
+    """cut-point for `while depth and isinstance(parents[depth - 1], tree.Boost)` in LuceneCheck.check_field_group.
+    Invariant: 0 <= depth <= len(parents) and every ancestor at an index >= depth is a boost; decreases depth."""
+
+    def __init__(self, mode, parents):
+        self.mode, self.parents = mode, parents
+        self.entered = 0
+        self.pre = None
+
+    def inv(self, depth):
+        if not isinstance(depth, SymInt):
+            if isinstance(depth, bool) or not isinstance(depth, int):
+                return z3.BoolVal(False)
+            depth = SymInt(z3.IntVal(depth))
+        j = z3.Int(sym.fresh("j"))
+        n = self.parents.n.t
+        return z3.And(depth.t >= 0, depth.t <= n,
+                      z3.ForAll([j], z3.Implies(z3.And(depth.t <= j, j < n), self.parents.is_boost(j))))
+
+    def enter(self, loc):
+        self.entered += 1
+        if "depth" not in loc or loc.get("parents") is not self.parents:
+            raise EngineUnsupported("check_field_group's loop no longer walks `depth` over `parents`: the cut-point contract must be re-stated")
+        if self.mode == "init":
+            raise PathStop([("C20-F/FieldGroup/any-chain/while/invariant-holds-on-entry", self.inv(loc["depth"]))])
+        cx = sym.ctx()
+        d = SymInt(name="depth_at_loop_head")
+        cx.assume(self.inv(d))
+        self.pre = d.t
+        return {"depth": d}
+
+    def step(self, loc):
+        if self.mode != "havoc":
+            return
+        d = loc["depth"]
+        dt = d.t if isinstance(d, SymInt) else z3.IntVal(d)
+        raise PathStop([("C20-F/FieldGroup/any-chain/while/invariant-preserved", self.inv(d)),
+                        ("C20-F/FieldGroup/any-chain/while/decreases", z3.And(dt >= 0, dt < self.pre))])
+
+
+def field_group_chain_cases():
+    """check_field_group looks through a chain of boosts of any length: abstract ancestors + loop invariant"""
+    from vfkit import rewrite
+    cases = []
+    for la, mk, cls in treecases.instances(layout="none", ops_shapes=(0, 1, 2, 3)):
+        if cls is not T.FieldGroup or ".parsed" in la:
+            continue
+        for mode in ("init", "havoc"):
+            for zeal in (0, 1):
+                def run(cx, la=la, mk=mk, mode=mode, zeal=zeal):
+                    x, kids = mk("x")
+                    parents = AbsParents(cx)
+                    chk = CK.LuceneCheck(zeal=zeal)
+                    real = chk.check
+                    calls = []
+
+                    def stub(item, par=[]):
+                        if isinstance(item, (model.Run, model.AbsNode)):
+                            b = z3.Bool(sym.fresh("child_clean"))
+                            calls.append((item, par, b))
+                            return iter([]) if cx.decide(b) else iter([Dirty()])
+                        return real(item, par)
+                    chk.check = stub
+                    before = dict(x.__dict__)
+                    fsnap = frame.snapshot()
+                    mark = len(cx.log)
+                    cut = FieldGroupCut(mode, parents)
+                    rewrite.WHILE_CUTS[FG_WHILE_KEY] = cut
+                    key = "%s/any-chain/zeal%d" % (la, zeal)
+                    try:
+                        msgs = list(real(x, parents))
+                    except (EngineUnsupported, sym.PathStop):
+                        raise
+                    except Exception as e:  # noqa: BLE001
+                        return [("C20-F/%s/never-raises" % key, (False, {"exception": core.exc_desc(e)}))]
+                    finally:
+                        rewrite.WHILE_CUTS.pop(FG_WHILE_KEY, None)
+                    if cut.entered == 0:
+                        raise EngineUnsupported("check_field_group has no loop under the cut-point contract any more: restate C20-F for the new code")
+                    if mode == "init":
+                        raise EngineUnsupported("the loop under the cut-point contract was entered without stopping")
+                    kids_clean = z3.And([b for (_, _, b) in calls]) if calls else z3.BoolVal(True)
+                    clean = z3.BoolVal(len(msgs) == 0)
+                    own = [m for m in msgs if not isinstance(m, Dirty)]
+                    placed = parents.in_field_position()
+                    return [("C20-F/%s/never-raises" % key, True),
+                            ("C20-F/%s/messages-are-strings" % key, all(isinstance(m, (str, SymStr, Dirty)) for m in msgs)),
+                            ("C20-F/%s/tree-and-checker-untouched" % key,
+                             (all(x.__dict__.get(k) is v for k, v in before.items()) and len(x.__dict__) == len(before)
+                              and not [e for e in cx.log[mark:] if e[0] == "write"]
+                              and not frame.diff(fsnap, frame.snapshot()) and set(chk.__dict__) == {"zeal", "check"})),
+                            ("C20-F/%s/children-checked-with-parents-plus-node" % key,
+                             all(isinstance(par, ExtParents) and par.base is parents and len(par.extra) == 1 and par.extra[0] is x
+                                 for (_, par, _) in calls)),
+                            ("C20-F/%s/every-child-is-checked-once" % key,
+                             len(calls) == len(kids) and all(c[0] is k for c, k in zip(calls, kids))),
+                            ("C20-F/%s/in-place-after-any-number-of-boosts-accepted" % key,
+                             z3.Implies(z3.And(placed, kids_clean), clean)),
+                            ("C20-F/%s/misplaced-field-group-rejected" % key, z3.Implies(z3.Not(placed), z3.BoolVal(len(own) > 0))),
+                            ("C20-F/%s/defect-below-is-reported" % key, z3.Implies(z3.Not(kids_clean), z3.Not(clean)))]
+                cases.append(core.Case("C20-F/%s/any-chain/%s/zeal%d" % (la, mode, zeal), run,
+                                       functions=["luqum.check.LuceneCheck.check_field_group"]))
+    return cases
+
+
+QUICK_PARENTS = ("SearchField", "OrOperation", "Group", "AndOperation", "Boost")
 
 
 def parent_variants(tier="thorough"):
@@ -106,6 +289,9 @@ def parent_variants(tier="thorough"):
             continue
         out.append(("under-" + cls.__name__, lambda cls=cls: [c08.model_witness(cls)]))
     out.append(("under-Group-under-SearchField", lambda: [T.SearchField("f", T.Word("w")), T.Group(T.Word("w"))]))
+    out.append(("under-Boost-under-SearchField", lambda: [T.SearchField("f", T.Word("w")), T.Boost(T.Word("w"), 2)]))
+    out.append(("under-Boost-under-Group", lambda: [T.Group(T.Word("w")), T.Boost(T.Word("w"), 2)]))
+    out.append(("under-3-Boosts-under-SearchField", lambda: [T.SearchField("f", T.Word("w"))] + [T.Boost(T.Word("w"), i) for i in (1, 2, 3)]))
     return out
 
 
@@ -177,6 +363,8 @@ def check_cases(tier="thorough"):
                 cases.append(core.Case("C20/%s/%s/zeal%d" % (la, pname, zeal), run,
                                        functions=["luqum.check.LuceneCheck.check"]))
 
+    cases.extend(field_group_chain_cases())
+
     def run_verdict(cx):
         out = []
         for n in (0, 1, 3):
@@ -204,7 +392,7 @@ import re
 x = @@X@@
 problems = []
 well_formed = [parser.parse(q) for q in ['a', '"a b"', '/re/', 'f:[1 TO 2]', 'f:>3', 'NOT a', '-a', '+a OR b^2', 'f:(a b)',
-                                         'f:"p"~2', '(a AND b~1) OR c', 'f:/r/', '<=x', 'a~ b^']]
+                                         'f:"p"~2', '(a AND b~1) OR c', 'f:/r/', '<=x', 'a~ b^', 'f:(a b)^2', 'g:(a OR b)^2^3 c']]
 for zeal in (0, 1):
     for t in [x] + well_formed:
         f0 = fingerprint(t)
@@ -224,29 +412,36 @@ for zeal in (0, 1):
         if t is not x and zeal == 0 and errs:
             problems.append('well-formed %r rejected: %r' % (str(t), errs))
 
-def ill(n, parent):
+def in_field(parents):
+    rest = [q for q in reversed(parents)]
+    while rest and type(rest[0]).__name__ == 'Boost':
+        rest.pop(0)
+    return bool(rest) and type(rest[0]).__name__ == 'SearchField'
+
+def ill(n, parents):
     nm = type(n).__name__
+    parent = parents[-1] if parents else None
     if nm == 'Word' and re.search(r'\\s', n.value): return True
     if nm == 'Fuzzy' and (n.degree < 0 or type(n.term).__name__ != 'Word'): return True
     if nm == 'Proximity' and type(n.term).__name__ != 'Phrase': return True
     if nm == 'SearchField' and (not re.fullmatch(r'\\w+', n.name) or type(n.expr).__name__ not in @@VALUES@@): return True
     if nm == 'Group' and type(parent).__name__ == 'SearchField': return True
-    if nm == 'FieldGroup' and type(parent).__name__ != 'SearchField': return True
+    if nm == 'FieldGroup' and not in_field(parents): return True
     return False
 
-def well(n, parent):
+def well(n, parents):
     nm = type(n).__name__
-    if nm in ('NoneItem', 'Term', 'BaseGroup') or ill(n, parent): return False
+    if nm in ('NoneItem', 'Term', 'BaseGroup') or ill(n, parents): return False
     if isinstance(n, T.BaseOperation) and len(n.children) < 1: return True
     if nm in ('Range', 'Fuzzy', 'Proximity'):
         return True
-    return all(well(c, n) for c in n.children)
+    return all(well(c, parents + (n,)) for c in n.children)
 
-def reachable(n, parent=None):
-    yield n, parent
+def reachable(n, parents=()):
+    yield n, parents
     if type(n).__name__ in @@PROP@@:
         for c in n.children:
-            yield from reachable(c, n)
+            yield from reachable(c, parents + (n,))
 
 # history: a rejected __call__ must not influence later checks (same or fresh checker)
 ck = LuceneCheck()
@@ -259,7 +454,8 @@ for first in (T.SearchField('f', T.Word('a b')), T.OrOperation(T.Word('a'), T.Wo
                     problems.append('after checking %r, %r is %s' % (first, later, 'accepted' if not want else 'rejected'))
             except Exception as e:
                 problems.append('after checking %r, check of %r raised %r' % (first, later, e))
-for deep in (T.SearchField('f', T.FieldGroup(T.FieldGroup(T.Word('a')))), T.SearchField('f', T.Boost(T.FieldGroup(T.Word('a')), 2)),
+for deep in (T.SearchField('f', T.FieldGroup(T.FieldGroup(T.Word('a')))), T.SearchField('f', T.Boost(T.Group(T.FieldGroup(T.Word('a'))), 2)),
+             T.AndOperation(T.Boost(T.FieldGroup(T.Word('a')), 2), T.Word('b')),
              T.SearchField('f', T.FieldGroup(T.AndOperation(T.FieldGroup(T.Word('a')), T.Word('b')))),
              T.AndOperation(T.Word('a'), T.Word('b'), T.Not(T.Boost(T.Group(T.Word('c d')), 2)))):
     for zeal in (0, 1):
@@ -268,7 +464,7 @@ for deep in (T.SearchField('f', T.FieldGroup(T.FieldGroup(T.Word('a')))), T.Sear
 bad = [n for n, p in reachable(x) if ill(n, p)]
 if bad and LuceneCheck()(x):
     problems.append('ill-formed construct %r inside %r accepted' % (bad[0], x))
-if well(x, None) and not LuceneCheck()(x):
+if well(x, ()) and not LuceneCheck()(x):
     problems.append('well-formed %r rejected: %r' % (x, LuceneCheck().errors(x)))
 violated = bool(problems)
 observation = '; '.join(problems[:3]) or 'as specified'
@@ -310,6 +506,8 @@ def plan(tier, seed):
     pl = Plan("C20", "proof")
     pl.cases = check_cases(tier)
     pl.canaries = [canary()]
+    from vfkit import lean as _leanc
+    pl.finite = list(getattr(pl, 'finite', None) or []) + [("A6/Lean re-check of the composition lemmas L-IND", _leanc.compose_check('L-IND'))]
     ntok = 4 if tier == "quick" else 6
 
     def net():
@@ -326,9 +524,12 @@ def plan(tier, seed):
     pl.assumptions = c01.ASSUMPTIONS + ["math.copysign(1, x) < 0 <=> x < 0 (negative zero not modelled)",
                                         "numeric attributes (degree, force) are finite numbers: mathematical reals in the obligations; infinities and NaN only through the bounded net C20-B"]
     pl.trusted_base = c01.TRUSTED
-    pl.lemmas = ["L-IND (paper): totality, acceptance (well-formed node + clean children => no message) and completeness "
+    pl.lemmas = ["L-IND (Lean: lemmas/Compose.lean fold_ind; model link assumed): totality, acceptance (well-formed node + clean children => no message) and completeness "
                  "(a listed defect yields a message at its own node; a message below is propagated by operations, groups, "
-                 "fields, boosts and prefixes) per class give the statement for any tree and any position of the defect"]
+                 "fields, boosts and prefixes) per class give the statement for any tree and any position of the defect",
+                 "C20-F (proved, loop invariant): check_field_group over an abstract ancestor list of any length - in place iff the nearest ancestor "
+                 "that is not a boost is a field (spec: exists k. ancestor k is a SearchField and every nearer ancestor is a Boost); invariant of the "
+                 "while loop: 0 <= depth <= len(parents) and every ancestor at an index >= depth is a boost; decreases depth"]
     pl.claim = ("per class x parent class x zeal in {0, 1}: never raises, yields strings only, tree / checker / parents "
                 "untouched; acceptance and completeness against spec predicates written from the statement; verdict "
                 "consistency of __call__ / errors.")
